@@ -289,3 +289,12 @@ Example ex_C02_history :
   pixels_of hx_c4 = [((0,0),6); ((0,1),3); ((1,2),3); ((2,2),5)] /\
   valid_csr_b hx_c4 = true.
 Proof. exact history_example. Qed.
+
+(** ---- tie to the source: the validator that guards every producer's write path — its per-record predicates are
+    regenerated from _ingest._validate_pixels on every run and the model's validator is the cascade over them (proved in
+    Proofs/GenBridgeCreate.v, restated in Props/C13.v); the surrounding statements, the chaining in create() and the fit
+    check / store statements of write_pixels are pinned. *)
+From Cooler Require Import Gen.Translated Proofs.GenBridgeCreate.
+Theorem C02_source_pins : Gen.validate_pixels_source_pins = true /\ Gen.create_write_source_pins = true.
+Proof. exact gen_validate_pins. Qed.
+Print Assumptions C02_source_pins.
